@@ -640,6 +640,28 @@ def zs_neg(x: fp.Real) -> tuple[fp.Real, fp.Real]:
         return (x / z, x / w)
 
 
+# ---- twins that hand a library primitive arguments equal as numbers but not the same value (+0 / -0) ----
+from fpy2.libraries.core import frexp as _frexp, modf as _modf
+
+
+@fp.fpy
+def prim_pos(x: fp.Real) -> tuple[fp.Real, fp.Real]:
+    with fp.FP64:
+        z = 0.0 * x
+        i, f = _modf(z)
+        m, e = _frexp(z)
+    return (f, m)
+
+
+@fp.fpy
+def prim_neg(x: fp.Real) -> tuple[fp.Real, fp.Real]:
+    with fp.FP64:
+        z = -0.0 * x
+        i, f = _modf(z)
+        m, e = _frexp(z)
+    return (f, m)
+
+
 # ---- programs nested deeply: one operator chain, as program generators and inlining produce them ----
 # `deep_chain` (a thousand terms) is nested deeper than the interpreter's default recursion limit lets
 # the library compile: evaluating it fails with RecursionError -- in every process, thread and history
@@ -718,6 +740,8 @@ def muladd16(a: fp.Real, b: fp.Real, c: fp.Real) -> tuple[fp.Real, fp.Real]:
 
 
 SIG = {
+    'prim_pos': ['pos'],
+    'prim_neg': ['pos'],
     'idx5': ['num'],
     'idx12': ['num'],
     'idx40': ['num'],
@@ -801,7 +825,7 @@ AMBIENT = ['extremes', 'use_table', 'use_pass_list', 'pinned32', 'pinned_rtz16',
 LOOPS = ['idx40', 'idx5', 'enum_w', 'idx12', 'idx_step', 'sum_enum', 'dot', 'alt_loop']
 
 # twins: derived copies that must not be taken for each other (the second pair differs in the sign of a zero)
-TWINS = [['q_a16', 'q_b8'], ['zs_pos', 'zs_neg']]
+TWINS = [['q_a16', 'q_b8'], ['zs_pos', 'zs_neg'], ['prim_pos', 'prim_neg']]
 
 # functions that pin their own context with @fp.fpy(ctx=...) (a common idiom): the caller's ctx= must not matter
 PINNED = ['pinned32', 'pinned_rtz16', 'calls_pinned']
@@ -822,7 +846,7 @@ BOUNDARY = RETURNS_LISTS + ['deep', 'mut_list', 'share_call', 'dot', 'sum_enum',
 # functions whose value under one context may meet what was kept from another: the context ladder
 LADDER = ['tenth', 'consts', 'circle', 'muladd', 'extremes', 'helper_noctx']
 
-SPECIAL = ['deep_chain', 'zs_neg', 'idx40', 'enum_w', 'zs_pos', 'idx_step', 'widen', 'slow_churn', 'chain100', 'fill', 'tally', 'litrow', 'circle', 'consts', 'muladd', 'muladd16', 'pinned32', 'narrow', 'extremes', 'tenth', 'use_table', 'uses_closure', 'deep', 'ret_param', 'via_prim', 'calls_failing',
+SPECIAL = ['deep_chain', 'prim_neg', 'prim_pos', 'zs_neg', 'idx40', 'enum_w', 'zs_pos', 'idx_step', 'widen', 'slow_churn', 'chain100', 'fill', 'tally', 'litrow', 'circle', 'consts', 'muladd', 'muladd16', 'pinned32', 'narrow', 'extremes', 'tenth', 'use_table', 'uses_closure', 'deep', 'ret_param', 'via_prim', 'calls_failing',
            'calls', 'pinned_rtz16', 'narrow_neg', 'tenth16', 'use_pass_list', 'shadowing', 'ident_pair', 'ret_pair',
            'via_picky', 'asserting', 'cap_num', 'calls_pinned', 'narrow_all', 'tenth32', 'mut_list', 'nested_lists',
            'share_call', 'indexer', 'exact_or_fail', 'trans', 'directed', 'ident', 'slices',
@@ -834,6 +858,8 @@ FAILING = ['asserting', 'indexer', 'exact_or_fail', 'calls_failing', 'via_picky'
 
 # strategies that may be applied to each function (name -> list of (strategy, kwargs))
 DERIVABLE = {
+    'prim_pos': [('simplify', {})],
+    'prim_neg': [('simplify', {})],
     'zs_pos': [('simplify', {})],
     'zs_neg': [('simplify', {})],
     'idx12': [('unroll_for', {'times': 1}), ('simplify', {})],
